@@ -264,6 +264,59 @@ theorem call_result_const (tbl : ClassTable) (s : SSig) (hng : s.generic = false
       simp [checkBound, hg', SSig.asig]
   rw [hret]; exact hk
 
+/-! ## Several `*iterable`s in one call -/
+
+theorem starFold_covers (tbl : ClassTable) (x : Bool) (T : Ty)
+    (hresp : ∀ a b, (Ty.hashEq a b && Ty.beq a b) = true → ca tbl x T a = ca tbl x T b) :
+    ∀ (rest : List PosItem) (a m : Ty), rest.foldl starStep (some a) = some m →
+      ca tbl x T m = true → ca tbl x T a = true ∧ ∀ it ∈ rest, ca tbl x T it.2 = true := by
+  intro rest
+  induction rest with
+  | nil => intro a m h hm; simp at h; subst h; exact ⟨hm, by simp⟩
+  | cons it rest ih =>
+    intro a m h hm
+    simp only [List.foldl_cons, starStep] at h
+    obtain ⟨h1, h2⟩ := ih _ m h hm
+    rw [ca_unite_all tbl x T _ (fun a _ b _ hab => hresp a b hab)] at h1
+    simp only [List.all_cons, List.all_nil, Bool.and_true, Bool.and_eq_true] at h1
+    refine ⟨h1.2, ?_⟩
+    intro it' hit
+    rcases List.mem_cons.mp hit with rfl | hit
+    · exact h1.1
+    · exact h2 it' hit
+
+/-- **`star_merge_covers`.** `preprocess_args` merges everything from the first `*xs` on — the
+element types of all `*iterable`s and the single positionals written between / after them — into
+one element type by `unite_values`. For every declared type `T` that does not distinguish values
+`unite_values` identifies (`hresp`; it fails exactly in the class `equalLiteralArgs`): if `T`
+accepts the merged type it accepts every contributing element type and every interleaved
+positional — so an ill-typed positional between two `*iterable`s cannot be lost. -/
+theorem star_merge_covers (tbl : ClassTable) (x : Bool) (T : Ty)
+    (hresp : ∀ a b, (Ty.hashEq a b && Ty.beq a b) = true → ca tbl x T a = ca tbl x T b) :
+    ∀ (items : List PosItem) (m : Ty), starMerge items = some m → ca tbl x T m = true →
+      ∀ c ∈ starContrib items, ca tbl x T c = true := by
+  intro items
+  induction items with
+  | nil => intro m h; simp [starMerge] at h
+  | cons it rest ih =>
+    intro m h hm c hc
+    obtain ⟨b, v⟩ := it
+    cases b
+    · simp only [starMerge, List.foldl_cons, starStep] at h
+      simp only [starContrib] at hc
+      exact ih m h hm c hc
+    · simp only [starMerge, List.foldl_cons, starStep] at h
+      obtain ⟨h1, h2⟩ := starFold_covers tbl x T hresp rest v m h hm
+      simp only [starContrib, List.mem_cons, List.mem_map] at hc
+      rcases hc with rfl | ⟨it, hit, rfl⟩
+      · exact h1
+      · exact h2 it hit
+
+/-- `f(*xs, "bad", *ys)` with `xs, ys : list[int]`: the merged element type keeps the literal. -/
+example : starMerge [(true, .typed C.int), (false, .known (.str "bad")), (true, .typed C.int)] =
+    some (.union [.typed C.int, .known (.str "bad")]) := by
+  simp [starMerge, starStep, unite, flatten1, dedup, dictMem, Ty.hashEq, Ty.beq]
+
 /-! ## Constructors and bound methods -/
 
 /-- arg_spec.py:857-936 + `bind_self`: calling a class whose `__init__` is `def __init__(self, …)`
